@@ -183,6 +183,33 @@ def id3v1_at_end(d):
 
 
 # ---------------------------------------------------------------- FLAC
+def flac_picture_decode(pl):
+    """METADATA_BLOCK_PICTURE per the FLAC format specification; raises Bad when the inner lengths do not fit the block"""
+    p = 0
+
+    def u32():
+        nonlocal p
+        need(p + 4 <= len(pl), "picture: truncated field")
+        v = int.from_bytes(pl[p:p + 4], "big"); p += 4
+        return v
+
+    def take(n):
+        nonlocal p
+        need(p + n <= len(pl), "picture: %d bytes announced, %d left" % (n, len(pl) - p))
+        v = pl[p:p + n]; p += n
+        return v
+    typ = u32()
+    mime = take(u32())
+    try:
+        desc = take(u32()).decode("utf-8")
+    except UnicodeDecodeError as e:
+        raise Bad("picture: description is not UTF-8 (%s)" % e)
+    w, h, depth, colors = u32(), u32(), u32(), u32()
+    data = take(u32())
+    need(p == len(pl), "picture: %d bytes of slack after the picture data" % (len(pl) - p))
+    return (typ, mime.decode("latin-1"), desc, w, h, depth, colors, data)
+
+
 def flac(d):
     off = 0
     id3 = None
@@ -222,6 +249,8 @@ def flac(d):
             padding += len(pl)
             need(not pl.strip(b"\x00"), "flac: non-zero padding block")
         else:
+            if t == 6:
+                flac_picture_decode(pl)      # the inner length fields must add up to the block length
             foreign.append(("block%d" % t, pl))
     foreign.append(("audio", audio))
     npad = sum(1 for t, _ in blocks if t == 1)
